@@ -9,7 +9,6 @@ import (
 	"context"
 	"fmt"
 	"math"
-	"sort"
 	"strconv"
 	"strings"
 	"time"
@@ -73,13 +72,13 @@ func parseInts(s string) []int64 {
 // ---------------------------------------------------------------------------------------
 // fn: pkg/query/aggregation on a partitioned list
 
-// form: p = an empty partition sends its Map partial; s = an empty partition sends nothing (what the plans do);
-// z = an empty partition is decoded from an empty field list (the F12 form).
+// fn: an empty partition sends its Map partial; fns: an empty partition sends nothing (what the plans do);
+// fnz: an empty partition is decoded from an empty field list (the F12 form, sent by no plan).
 func doFn(f []string) string {
 	af := parseFn(f[1])
-	form := f[2]
+	form := map[string]string{"fn": "p", "fns": "s", "fnz": "z"}[f[0]]
 	var parts [][]int64
-	for _, p := range strings.Split(f[3], "|") {
+	for _, p := range strings.Split(f[2], "|") {
 		parts = append(parts, parseInts(p))
 	}
 	whole, err := aggregation.NewMap[int64](af)
@@ -794,7 +793,7 @@ func handle(f []string) string {
 		return "bad-op"
 	}
 	switch f[0] {
-	case "fn":
+	case "fn", "fns", "fnz":
 		return doFn(f)
 	case "ff":
 		return doFloat(f)
@@ -807,8 +806,6 @@ func handle(f []string) string {
 	}
 	return "bad-op"
 }
-
-var _ = sort.Strings
 
 func main() {
 	drv.Run(handle)
